@@ -93,8 +93,9 @@ def _scratch_remove(d, keep_build=False):
     subprocess.run(["git", "-C", "/repo", "worktree", "remove", "--force", d], stdout=subprocess.DEVNULL, stderr=subprocess.DEVNULL)
     shutil.rmtree(d, ignore_errors=True)
     if not keep_build:
-        for t in ("target-parsim-scratch", "target-seamsim-scratch"):
-            shutil.rmtree(os.path.join(HERE, t), ignore_errors=True)
+        for t in os.listdir(HERE):
+            if t.startswith("target-") and t.endswith("-scratch"):
+                shutil.rmtree(os.path.join(HERE, t), ignore_errors=True)
     shutil.rmtree(os.path.join(HERE, "tmp", "evidence-scratch"), ignore_errors=True)
 
 
